@@ -235,4 +235,108 @@ PROPS["C01"] = dict(
     design_ref="6 C01",
 )
 
+DB_TB = ["log-level model: a keyspace's tables / memtables are the operations they reflect; first-hit reads and GC inside tables are the Mvcc layer (C01)",
+         "stage 1 covers databases whose journal has not been rotated for the recover theorem (sealed journals, the skip rule and eviction are modelled and "
+         "compared by the engine, their end-to-end theorem is stage 2)",
+         "process crash = the bytes of completed write(2) calls survive (OS page cache); lsm-tree's own file protocol (manifest swap, table fsync) is trusted"]
+
+PROPS["C04"] = dict(
+    title="Close and reopen reproduces exactly the same logical content",
+    modules=["FjallModel.Props.C04"],
+    theorems=["Fjall.Db.c04_reopen_same_partial", "Fjall.Db.c04_reopen_same_keyspaces", "Fjall.Db.c04_replay_idempotent"],
+    statements={
+        "c04_reopen_same_partial": "forall histories (create/delete keyspace, write, batch, clear, rotate, flush, lowered persisted seqno, earlier reopen cycles; no journal rotation): "
+                                   "abs (recover db) id ~ abs db id for every keyspace id",
+        "c04_reopen_same_keyspaces": "the same (id, name) list comes back",
+        "c04_replay_idempotent": "re-applying an already reflected clear-free suffix followed by the rest changes nothing",
+    },
+    engines=[dict(bin="dbeng", args=["--mode", "c04"], cases_quick=480, cases_thorough=10000, profiles=["release"], profiles_thorough=["release", "dev"])],
+    rule="case = program of 12-45 (thorough 90) events over up to 3 keyspace names: create / delete (handles kept or dropped) / insert, remove, multi-keyspace batch, clear / "
+         "memtable rotation / all queued worker messages (flush, compaction) / major compaction / journal rotation (hook) / journal maintenance / clean reopen / "
+         "process-crash image (sparse copy of the directory, reopened) / full check; after every event journal_count is compared with the model; contents are compared "
+         "three ways (real scan + point reads, Lean log-level model, reference map per name). non-trivial = a reopen or crash image while both tables and journal "
+         "hold data, or a journal eviction happened",
+    trusted_base=DB_TB,
+    assumptions=["ingestion and compaction filters are outside the partial theorem (findings F2/F3/F13 region)", "single thread"],
+    level_text="Lean 4 theorem: recovery reproduces every keyspace for all histories without journal rotation (inductive coverage invariant + replay idempotence), "
+               "tied to the real crate by an engine that also exercises sealed journals, eviction, deletion and crash images",
+    level_note="partial: sealed-journal recovery (skip rule) and eviction safety are compared by the engine; their theorem is stage 2",
+    technique="Lean 4 proof (coverage invariant over operation histories, last-writer-wins idempotence) + differential correspondence",
+    design_ref="6 C04",
+)
+PROPS["C02"] = dict(
+    title="Acknowledged writes survive a process crash, in commit order",
+    modules=["FjallModel.Props.C02"],
+    theorems=["Fjall.Db.c02_crash_prefix_partial", "Fjall.Db.c02_crash_mid_operation", "Fjall.Journal.c03_torn_tail"],
+    statements={
+        "c02_crash_prefix_partial": "crash at an operation boundary: recovery yields exactly the state of all acknowledged operations (all keyspaces)",
+        "c02_crash_mid_operation": "the in-flight batch is in the journal completely or not at all (c03_torn_tail); both cases recover to the state of a prefix of the committed operations",
+    },
+    engines=[dict(bin="dbeng", args=["--mode", "c02"], cases_quick=480, cases_thorough=10000, profiles=["release"]),
+             dict(bin="journal", args=["--mode", "c03"], cases_quick=24, cases_thorough=400, profiles=["release"])],
+    rule="dbeng: crash images (directory copies with 0 worker threads = process-crash image) at random points of programs with flushes, journal rotation and eviction, "
+         "reopened and compared with 'every acknowledged operation'; journal: every byte cut of the last batch x zero paddings, real reader + sampled real reopen + append + reopen",
+    trusted_base=DB_TB,
+    assumptions=["default journal persist mode (Buffer per operation)", "crashes inside lsm-tree's flush/compaction file protocol are trusted"],
+    level_text="Lean 4 theorems: acknowledged prefix at operation boundaries (log level) composed with the byte-level torn-tail theorem; crash images of real runs compared",
+    level_note="partial: syscall-granular kill enumeration (shim) and crashes during recovery itself are not yet built",
+    technique="Lean 4 proof (C04 coverage invariant + C03 torn tail) + crash-image correspondence",
+    design_ref="6 C02",
+)
+PROPS["C10"] = dict(
+    title="A journal file is deleted only when nothing in it is still needed",
+    modules=["FjallModel.Props.C10"],
+    theorems=["Fjall.Db.c10_evicts_oldest_flushed_only", "Fjall.Db.c10_watermark_covers_memory"],
+    statements={
+        "c10_evicts_oldest_flushed_only": "maintenance removes a prefix of the sealed journals only, touches nothing else, and each removed journal had every watermark (ks, lsn) satisfied: keyspace deleted or persisted >= lsn",
+        "c10_watermark_covers_memory": "at journal rotation every keyspace with unflushed records gets a watermark >= each of their seqnos",
+    },
+    engines=[dict(bin="dbeng", args=["--mode", "c10"], cases_quick=480, cases_thorough=10000, profiles=["release"])],
+    rule="as C04; journal_count after every event vs the model's eviction rule (the persisted seqno after last-level compactions is an observed input that only "
+         "lowers the model's value); crash images after evictions",
+    trusted_base=DB_TB,
+    assumptions=["liveness ('returns to one journal') fails when a keyspace was cleared or its newest tombstones were compacted away after sealing (finding F10, persisted seqno not monotone)"],
+    level_text="Lean 4 theorems about the eviction rule and the rotation watermarks; the end-to-end 'crash after unlink loses nothing' is checked on crash images by the engine",
+    level_note="partial: end-to-end theorem over sealed journals is stage 2; the real >64 MB trigger is replaced by a hook calling the same rotate_journal",
+    technique="Lean 4 proof (prefix-removal induction, fold maximum) + differential correspondence",
+    design_ref="6 C10",
+)
+PROPS["C11"] = dict(
+    title="After reopening, new writes supersede everything recovered",
+    modules=["FjallModel.Props.C11"],
+    theorems=["Fjall.Db.c11_seqno_dominates", "Fjall.Db.c11_overwrite_wins"],
+    statements={
+        "c11_seqno_dominates": "for every disk state: after recover the seqno counter exceeds every seqno in any table, memtable and journal record (resolved or not)",
+        "c11_overwrite_wins": "a put to a live keyspace is what get returns afterwards; a remove hides the key",
+    },
+    engines=[dict(bin="dbeng", args=["--mode", "c11"], cases_quick=480, cases_thorough=10000, profiles=["release"])],
+    rule="as C04; after every reopen: Database::seqno() > highest batch seqno found in every journal file (read with the real reader from copies) and > every tree's highest "
+         "seqno, visible = seqno; programs continue with overwrites / removes / checks after each reopen",
+    trusted_base=DB_TB,
+    assumptions=[],
+    level_text="Lean 4 theorem over every disk state for the counter; overwrite/remove semantics at log level; engine checks the real counter against the real journal files",
+    level_note="the model does not draw the extra seqnos tree.clear() consumes during replay (the real counter is only ever higher)",
+    technique="Lean 4 proof (fold maximum) + differential correspondence",
+    design_ref="6 C11",
+)
+PROPS["C12"] = dict(
+    title="Keyspaces are isolated, and a deleted keyspace never comes back",
+    modules=["FjallModel.Props.C12"],
+    theorems=["Fjall.Db.c12_isolation", "Fjall.Db.c12_deleted_is_gone", "Fjall.Db.c12_new_id_is_fresh", "Fjall.Db.c12_recreated_is_empty"],
+    statements={
+        "c12_isolation": "a write / batch / clear that does not name keyspace b leaves b's content unchanged",
+        "c12_new_id_is_fresh": "in every reachable state a newly created keyspace gets an id that no live keyspace has and no journal record carries",
+        "c12_recreated_is_empty": "creating a name that does not exist yields an empty keyspace",
+    },
+    engines=[dict(bin="dbeng", args=["--mode", "c12"], cases_quick=480, cases_thorough=10000, profiles=["release"])],
+    rule="as C04 with create / delete / re-create over 3 names, stale handles kept or dropped, reopen and crash images anywhere; stale handles must refuse writes; directory "
+         "of a deleted keyspace gone after the last handle and queued work; ids vs the model (journal-aware reseed); contents vs reference map per name",
+    trusted_base=DB_TB,
+    assumptions=["a deleted keyspace's directory may outlive the user's last handle while a sealed journal's watermark list holds a clone (finding F16)"],
+    level_text="Lean 4 theorems: isolation, fresh ids in every reachable state (no id is reused while a journal mentions it), re-created names start empty; engine covers crash/reopen at every point",
+    level_note="partial: sealed-journal histories in the engine only",
+    technique="Lean 4 proof (invariant over histories) + differential correspondence",
+    design_ref="6 C12",
+)
+
 ALL_IDS = [f"C{i:02d}" for i in range(1, 19)]
